@@ -434,7 +434,9 @@ def field_mutations(ast, quick_rng=None, budget=None):
                 if v == c[f]: continue
                 a = copy.deepcopy(ast); a["chunks"][ci][f] = v
                 if c["type"] == b"TOPO" and f in ("henc", "venc", "valence"): a["chunks"][ci]["frozen"] = body[24:]   # the data bytes stay as they were encoded
-                out.append(("c%d%s.%s=%d" % (ci, tn, f, v), a))
+                # a bit-packed bool chunk with a smaller count in the same byte is a consistent file (the rest keeps the default)
+                soft = "!soft" if (c["type"] == b"PROP" and f == "count" and c.get("ptype") == "b") else ""
+                out.append(("c%d%s.%s=%d%s" % (ci, tn, f, v, soft), a))
         if c["type"] == b"VERT":
             for i in range(3):
                 a = copy.deepcopy(ast); r = bytearray(3); r[i] = 9; a["chunks"][ci]["reserved"] = bytes(r); out.append(("c%dVERT.reserved[%d]" % (ci, i), a))
@@ -495,8 +497,9 @@ def expect_reject(label):
     m = re.match(r"c\d+(\w*)\.(\w+)", label)
     if not m: return None
     tn, f = m.group(1), m.group(2)
+    if label.endswith("!soft"): return None
     if f in ("padding", "file_length", "type", "padbyte", "first", "count", "enc", "venc", "henc", "entity", "valence", "valences",
-             "reserved", "data_size", "strlen", "bool_default_2", "empty_name"): 
+             "reserved", "data_size", "bool_default_2", "empty_name"): 
         if tn == "EOF" and f == "type": return True
         if tn == "DIRP" and f == "entity": return True if int(label.split("=")[1]) > 6 else None
         return True
